@@ -893,9 +893,10 @@ class VM:
         # Convert to numbers for numeric comparison
         a_num = to_number(a)
         b_num = to_number(b)
-        # Handle NaN - any comparison with NaN returns false, we return 1
+        # Handle NaN - any comparison with NaN is false: return NaN, which
+        # makes each of <, <=, >, >= on the result false
         if math.isnan(a_num) or math.isnan(b_num):
-            return 1  # NaN comparisons are always false
+            return float("nan")
         if a_num < b_num:
             return -1
         if a_num > b_num:
